@@ -852,6 +852,81 @@ def r01k(ctx):
                            f"the right of a shorter list survive — the grid model replaces the whole row")
 
 
+_FIXTURE_L = '''
+class Row:
+    def _delete_cells(self):
+        for child in self._el.findall(_get_lxml_tag(Cell._tag)):
+            self._el.remove(child)
+    def count(self):
+        return len(self.get_elements("table:table-cell"))
+    def fine(self, cell):
+        cell.tag = "table:table-cell"
+        if cell.tag == "table:covered-table-cell":
+            return self.xpath("(table:table-cell|table:covered-table-cell)")
+'''
+
+
+def _cell_tag_selectors(tree: ast.AST):
+    """uses of the plain cell tag (the literal or Cell._tag) as a selector: an argument of a call, not a retag, not a comparison, not next to the covered tag"""
+    out = []
+    parents = {}
+    for x in ast.walk(tree):
+        for ch in ast.iter_child_nodes(x):
+            parents[id(ch)] = x
+    for x in ast.walk(tree):
+        plain = (isinstance(x, ast.Constant) and isinstance(x.value, str) and "table:table-cell" in x.value and "covered-table-cell" not in x.value) or \
+            (isinstance(x, ast.Attribute) and x.attr == "_tag" and isinstance(x.value, ast.Name) and x.value.id == "Cell")
+        if not plain:
+            continue
+        cur, ok = x, None
+        while id(cur) in parents and ok is None:
+            par = parents[id(cur)]
+            if isinstance(par, ast.Call) and cur in par.args + [k.value for k in par.keywords]:
+                fn = par.func.attr if isinstance(par.func, ast.Attribute) else getattr(par.func, "id", "")
+                if fn in ("register_element_class_list", "register_element_class", "from_tag", "Element", "Cell"):
+                    ok = True
+                elif fn in ("_get_lxml_tag", "_get_lxml_tag_or_name", "str", "format"):
+                    cur = par
+                    continue
+                else:
+                    ok = False
+            elif isinstance(par, ast.Compare):
+                ok = True
+            elif isinstance(par, (ast.Assign, ast.AnnAssign, ast.Expr, ast.Return, ast.stmt)):
+                ok = True
+            cur = par
+        if ok is False:
+            out.append(x)
+    return out
+
+
+def r01l(ctx):
+    """The cells of a row are what the one cell scheme selects.
+
+    A row holds `table:table-cell` and `table:covered-table-cell` children; both occupy positions of the grid.  Every reader, the position map
+    and the vault functions select them with the one compiled scheme `(table:table-cell|table:covered-table-cell)`.  Code that enumerates the
+    cells by the plain tag (to delete them "straight on the tree", to count them) leaves the covered cells of a span out: a whole-row set then
+    keeps them in front of the new cells, the line is shifted right and the table widens.  Rule (expected count 0, fixture evaluated on every
+    run): in the table modules the plain cell tag — the literal or `Cell._tag` — is never handed to a call as a selector; it appears only in
+    retags, comparisons, registrations, and strings that also name the covered tag.
+    """
+    repo = ctx.repo
+    ctx.rule("R01l", "table code never selects cells by the plain cell tag (covered cells are cells too)", floor=4)
+    tree = ast.parse(_FIXTURE_L)
+    got = sorted({fn.name for fn in ast.walk(tree) if isinstance(fn, ast.FunctionDef) and _cell_tag_selectors(fn)})
+    if got != ["_delete_cells", "count"]:
+        raise AnalysisError(f"R01l fixture: detector broken: {got}")
+    for modname in ("row", "table", "cell", "element_cached"):
+        m = repo.module(modname)
+        bad = _cell_tag_selectors(m.tree)
+        ctx.instance("R01l", f"{m.relpath}:<module>", "no selection by the plain cell tag", ok=not bad, nontrivial=True)
+        for x in bad[:2]:
+            f = next((g for g in m.all_funcs if g.node.lineno <= x.lineno <= (g.node.end_lineno or g.node.lineno)), None)
+            ctx.report("R01l", f or m, x, f"plain cell tag selector {norm(x, 30)}",
+                       f"cells are selected by the plain tag `table:table-cell` here: the `table:covered-table-cell` children of a row (cells under a span) are cells of the grid too and are left "
+                       f"out — a whole-row set keeps them in front of the new cells and the row grows")
+
+
 def run(ctx):
     tom = run_tom(ctx.repo)
     r01a(ctx, tom)
@@ -864,6 +939,10 @@ def run(ctx):
     r01i(ctx)
     r01j(ctx)
     r01k(ctx)
+    r01l(ctx)
+    # removing an item straight on the lxml tree bypasses Element.delete and the vault bookkeeping (rule shared with C09)
+    from .c09 import r09i
+    r09i(ctx)
 
 
 from ..selftest import Seed, unparse_seed  # noqa: E402
@@ -872,6 +951,9 @@ _T = "src/odfdo/table.py"
 _R = "src/odfdo/row.py"
 _EC = "src/odfdo/element_cached.py"
 SEEDS = [
+    Seed("Row._delete_cells removes the children found by the plain cell tag", "fault", _R,
+         "        for cell in self._get_cells():\n            self.delete(cell)\n        self._compute_row_cache()",
+         "        for cell in self.get_elements(Cell._tag):\n            self.delete(cell)\n        self._compute_row_cache()", "R01l"),
     Seed("set_row_values fills a copy of the stored row", "fault", _T,
          "        row = Row()  # needed if clones rows\n        row.set_values(values, style=style, cell_type=cell_type, currency=currency)\n        return self.set_row(y, row)  # needed if clones rows",
          "        row = self.get_row(y)\n        row.repeated = None\n        row.set_values(values, style=style, cell_type=cell_type, currency=currency)\n        return self.set_row(y, row, clone=False)", "R01k"),
